@@ -169,6 +169,8 @@ impl<D: DataRef> MatZnx<D> {
         let nb_bytes: usize = VecZnx::<Vec<u8>>::bytes_of(self.n, self.cols_out, self.size);
         let start: usize = nb_bytes * self.cols() * row + col * nb_bytes;
         let end: usize = start + nb_bytes;
+        #[cfg(poulpy_verif)]
+        crate::verif::check_bytes("MatZnx::at", start, end, self_ref.data.len());
 
         VecZnx {
             data: &self_ref.data[start..end],
@@ -202,6 +204,8 @@ impl<D: DataMut> MatZnx<D> {
         let nb_bytes: usize = VecZnx::<Vec<u8>>::bytes_of(n, cols_out, size);
         let start: usize = nb_bytes * cols_in * row + col * nb_bytes;
         let end: usize = start + nb_bytes;
+        #[cfg(poulpy_verif)]
+        crate::verif::check_bytes("MatZnx::at_mut", start, end, self_ref.data.len());
 
         VecZnx {
             data: &mut self_ref.data[start..end],
